@@ -32,6 +32,13 @@ def main():
         sys.exit(rc)
 
     broken = []  # (stage, detail): a proof obligation or tie that no longer checks
+    stage_t = {}
+    t_stage = time.time()
+
+    def lap(name):
+        nonlocal t_stage
+        stage_t[name] = round(time.time() - t_stage, 1)
+        t_stage = time.time()
 
     # steps 1, 0 and 2 run under ONE build lock, so that no concurrent check can regenerate Gen/*.v in between
     with vlib.Lock():
@@ -54,6 +61,7 @@ def main():
             proof = vlib.check_props(mod.PROPS)
         except Exception as ex:
             proof = {"ok": False, "theorems": [], "closed": [], "open": {}, "log": repr(ex), "file": mod.PROPS, "failed_stage": "exception"}
+    lap("translate+proofs(incl. lock wait)")
     if not proof["ok"]:
         broken.append(("proof:" + proof.get("failed_stage", "?"), proof.get("log", "")[-3000:]))
     coqchk = None
@@ -72,11 +80,13 @@ def main():
         except Exception as ex:
             broken.append(("generated-obligations", "%s: %s" % (type(ex).__name__, ex)))
 
+    lap("coqchk+generated-obligations")
     # 3. correspondence: extracted model vs implementation
     try:
         mod.correspond(ctx)
     except Exception as ex:
         broken.append(("correspondence-harness", traceback.format_exc()[-3000:]))
+    lap("correspondence")
     n_mis_after_corr = len(ctx.mismatches)
     if ctx.mismatches:
         broken.append(("correspondence", ctx.mismatches[:5]))
@@ -88,6 +98,8 @@ def main():
     except Exception as ex:
         broken.append(("search-harness", traceback.format_exc()[-3000:]))
 
+    lap("search")
+    print("stages (s): " + ", ".join("%s %.1f" % kv for kv in stage_t.items()))
     if len(ctx.mismatches) > n_mis_after_corr:
         # model/spec cross-checks recorded during the search phase
         broken.append(("correspondence(search-phase)", ctx.mismatches[n_mis_after_corr:n_mis_after_corr + 5]))
